@@ -10,7 +10,7 @@ def U(pkg, run, quick, thorough, **kw):
     return d
 
 
-HOOK_COMMITS = ["7d5fc3e", "46899cc", "b1e6abc"]
+HOOK_COMMITS = ["7d5fc3e", "46899cc", "21038df", "b1e6abc"]
 
 # Properties without a registered check yet (kept current; see DESIGN.md).
 NOT_APPLICABLE = {pid: "check not built yet in this round (planned, DESIGN.md section 4)" for pid in
@@ -225,6 +225,22 @@ CHECKS = {
         "assumptions": ["edits are applied to the generator's IR and printed; an edit that makes the program stop compiling is skipped and counted"],
         "units": [U("props/lang", "TestC15Equivalence", (6000, 8), (100000, 10))],
         "floors": {"quick": {"semantic": 10000, "cosmetic": 10000, "edit:repoint-disabled": 100, "edit:rename-filetype": 500, "edit:includes": 2000}},
+    },
+    "C19": {
+        "level": "exploration",
+        "engine": "pure",
+        "technique": "property-based testing (rapid): generated program x one mro-edit operation applied the way `mro edit` applies it (compile, refactoring.Refactor, replay on the uncompiled parse, format), then recompiled; differential against the same rename applied to the generator's IR, rename round trip, and an invariant over the resolved call graph before/after removals",
+        "level_text": ("Programs from the C01 generator (4 pipelines deep, aliases forcing name collisions, `* = self` wildcards, struct projections, disabled modifiers, map calls, preflights, "
+                       "callable names used as types) x one edit on a reachable callable: rename stage/pipeline, rename input, rename output, remove input, remove output, remove unused calls+outputs "
+                       "with every root pipeline as top call.  Every result must compile.  Renames: the call-graph JSON must equal that of the program printed from the generator's IR after the same "
+                       "rename, and X->Y->X must give the original call-graph JSON and be EquivalentCall both ways.  Removals: no new graph node, every remaining stage node resolves its remaining "
+                       "inputs, disabling conditions and fork roots as before, preflights stay, the top-level call's resolved outputs are unchanged (remove-output: compile only). Exploration."),
+        "level_note": ("Single-file programs only (edits across include files are not generated).  Edits with no valid result are skipped and counted: removing the last output of a callable whose "
+                       "output struct is a parameter type.  Three classes are excluded as known findings (wildcard-bound inputs, output edits through struct values, map call losing its only split)."),
+        "rule": "rapid program generator x edit kind x target; non-trivial: the edit changed >= 2 places of the file; distinct by hash(program text, edit, callable, parameter); classes: edit kind, multi-site.",
+        "assumptions": ["the reference for renames is the generator's IR with the identifier replaced at its declaration, at every call/binding/reference and where the callable's name is used as a type"],
+        "units": [U("props/lang", "^TestC19Refactor$", (3000, 10), (60000, 12))],
+        "floors": {"quick": {"edit:rename-callable": 3000, "edit:rename-input": 1000, "edit:rename-output": 500, "edit:remove-input": 1000, "edit:remove-output": 300, "edit:remove-unused": 2000, "multi-site": 5000}},
     },
     "C16": {
         "level": "exploration",
